@@ -57,10 +57,11 @@ def depth(path):
 
 
 class Blob:
-    __slots__ = ('id', 'length', 'ckind', 'names', 'boot_refs', 'bit', 'catalog')
+    __slots__ = ('id', 'length', 'ckind', 'names', 'boot_refs', 'bit', 'catalog', 'cid')
 
     def __init__(self, bid, length, ckind=0):
         self.id = bid
+        self.cid = bid          # content id (changes when the content is replaced in place, C17)
         self.length = length
         self.ckind = ckind
         self.names = set()      # (ns, path)
